@@ -72,23 +72,24 @@ Proof.
   pose proof (lstep_ngrab_mono _ _ _ _ c S). specialize (IH l1 l' H A). lia.
 Qed.
 
-(* ---- rounds of the loop (work_steal): every call of select completes a collect_global ---- *)
-Lemma round_aux P n w tr : work_steal P = true -> forall l l', LReach P n l -> lruns P l tr = Some l' ->
+(* ---- rounds of the loop (work_steal; coll_ok: the loop before the fix, or 1 <= interval < budget): every call of select
+   completes a collect_global ---- *)
+Lemma round_aux P n w tr : work_steal P = true -> coll_ok P -> forall l l', LReach P n l -> lruns P l tr = Some l' ->
   nsel l w < nsel l' w -> coll0 l w < ncoll l' w.
 Proof.
-  intro WS. induction tr as [|a tr IH]; cbn [lruns]; intros l l' R H B; [inversion H; subst; lia|].
+  intros WS OK. induction tr as [|a tr IH]; cbn [lruns]; intros l l' R H B; [inversion H; subst; lia|].
   destruct (lstep P l a) as [l1|] eqn:S; [|discriminate].
   destruct (lruns_mono _ _ _ _ H w 0) as (M & _).
   destruct (lstep_nsel _ _ _ _ w S) as [[A1 A2]|(nx & _ & A1 & _)].
   - rewrite <- A2. apply IH; [eapply LRS; eauto | exact H | lia].
-  - destruct (rcinv_reach _ _ _ R) as (_ & RC). specialize (RC WS w). rewrite A1 in RC. specialize (RC eq_refl).
+  - destruct (rcinv_reach _ _ _ R) as (_ & RC & _). specialize (RC WS OK w). rewrite A1 in RC. specialize (RC eq_refl).
     pose proof (lstep_ncoll_mono _ _ _ _ w S). lia.
 Qed.
 
-Theorem round_collects P n w tr : work_steal P = true -> forall l l', LReach P n l -> lruns P l tr = Some l' ->
+Theorem round_collects P n w tr : work_steal P = true -> coll_ok P -> forall l l', LReach P n l -> lruns P l tr = Some l' ->
   nsel l w + 2 <= nsel l' w -> ncoll l w < ncoll l' w.
 Proof.
-  intro WS. induction tr as [|a tr IH]; cbn [lruns]; intros l l' R H B; [inversion H; subst; lia|].
+  intros WS OK. induction tr as [|a tr IH]; cbn [lruns]; intros l l' R H B; [inversion H; subst; lia|].
   destruct (lstep P l a) as [l1|] eqn:S; [|discriminate].
   assert (R1 : LReach P n l1) by (eapply LRS; eauto).
   destruct (lstep_nsel _ _ _ _ w S) as [[A1 A2]|(nx & _ & _ & A1 & A2)].
@@ -97,8 +98,8 @@ Proof.
 Qed.
 
 (* a coroutine in the global queue of w has been collected when w has completed two more rounds of its loop *)
-Theorem global_round_bound P n w c tr l l' : work_steal P = true -> LReach P n l -> lruns P l tr = Some l' ->
+Theorem global_round_bound P n w c tr l l' : work_steal P = true -> coll_ok P -> LReach P n l -> lruns P l tr = Some l' ->
   In c (gq (base l) w) -> nsel l w + 2 <= nsel l' w -> ngrab l c < ngrab l' c.
 Proof.
-  intros WS R H I B. eapply global_collect_bound; eauto. eapply round_collects; eauto.
+  intros WS OK R H I B. eapply global_collect_bound; eauto. eapply round_collects; eauto.
 Qed.
